@@ -13,7 +13,7 @@ import sys
 sys.path.insert(0, os.path.join(os.path.dirname(os.path.abspath(__file__)), ".."))
 from decomp import Case, gen_cases, judge_c02, run_pipeline  # noqa: E402
 from framework import Run  # noqa: E402
-from gen_ssb import ssb_candidates, ssb_skeleton, wf_ssb  # noqa: E402
+from gen_ssb import has_test_only_cycle, ssb_candidates, ssb_skeleton, wf_ssb  # noqa: E402
 from shrink import shrink  # noqa: E402
 
 
@@ -33,7 +33,15 @@ def main() -> None:
     q = run.tier == "quick"
     import core
     core.set_case_timeout(6)
-    cases, stats = gen_cases(run.seed, 700 if q else 8000, 300 if q else 4000, 400 if q else 6000, "C02")
+    # compiler-shaped control flow (ifs, switches with fall-through, loops, shared tails = forward jumps to top-level
+    # labels, cross-routine jumps, calls) and other layouts of the same flow graphs; arbitrary jump graphs are the
+    # subject of C06 (the structuring passes are heuristics for compiler-shaped code)
+    cases, stats = gen_cases(run.seed, 900 if q else 10000, 500 if q else 6000, 0, "C02", cfg_kw={"forward_jumps_only": True})
+    import json
+    corpus_path = os.path.join(os.path.dirname(os.path.abspath(__file__)), "..", "..", "corpus", "c02.json")
+    if os.path.exists(corpus_path):
+        for c in json.load(open(corpus_path)):
+            cases.insert(0, Case("corpus:" + c["name"], c["ops"], c["infos"], c["coros"], cls="corpus"))
     for k, v in stats.items():
         run.count("gen:" + k, v)
     recs = run_pipeline(cases)
@@ -57,7 +65,7 @@ def main() -> None:
             run.sample({"case": rec["case"].name, "input_ops": rec["case"].ops, "text": rec["dec"]["text"][:600]})
             break
     failing.sort(key=lambda t: t[0])
-    budget = 10 if q else 40
+    budget = 16 if q else 40
     seen: set[str] = set()
     for n, (_, rec, why) in enumerate(failing):
         c = rec["case"]
@@ -65,6 +73,13 @@ def main() -> None:
         if n < budget:
             cur = shrink(cur, ssb_candidates, fails_now, budget=250)
         sig = ssb_skeleton(cur["ops"])
+        srec0 = run_pipeline([Case("shrunk", cur["ops"], cur["infos"], cur["coros"])])[0]
+        et = srec0.get("eq_text", {})
+        if has_test_only_cycle(cur["ops"]):
+            sig = "cycle of tests and jumps without any operation"
+        elif et.get("r") == "fail" and et.get("pair", [None])[0] == 1 and srec0.get("recompiled", {}).get("ok"):
+            # node 1 of a source graph is the implicit return at the end of a routine
+            sig = "text runs off the end of a routine where the input goes on"
         if sig in seen and n >= budget:
             continue
         seen.add(sig)
